@@ -329,6 +329,7 @@ def _thr_world():
     edges = [("e1", "n1", "n2", 0.75, "supports"), ("e2", "n2", "n3", 0.5, "associates"), ("e3", "n3", "n1", 0.5, "contradicts")]
     for gid in ("ta", "tb"):  # two graphs of identical content under different ids (per-agent clones of a template)
         W._graph(st["store"], gid, nodes, edges)
+    W._graph(st["store"], "g3x", [("x1", "apple"), ("x2", "plum")], [("y1", "x1", "x2", 0.5, "supports")])
     return st
 
 
@@ -340,8 +341,15 @@ def threads_units(thorough):
                 for warm in (False, True):
                     if len(graphs) == 3 and (warm or cap == 1) and not thorough:
                         continue
-                    units.append({"stage": "t1", "graphs": graphs, "text": text, "cap": cap, "warm": warm,
-                                  "bound": 1 if (len(graphs) == 3 or not thorough) else 2})
+                    # two preemptions for the two-worker units on the default text (thorough); one everywhere else
+                    b2 = thorough and len(graphs) == 2 and text == "apple"
+                    units.append({"stage": "t1", "graphs": graphs, "text": text, "cap": cap, "warm": warm, "bound": 2 if b2 else 1})
+    if thorough:
+        # capacity == fan-out, both entries cached: the workers' hits touch the LRU recency order; the follow-up call adds a
+        # third graph first, so which of the two is evicted shows in its counters
+        for graphs in (["ta", "tb"], ["ta", "g2"]):
+            units.append({"stage": "t1", "graphs": graphs, "text": "apple", "cap": 2, "warm": True, "bound": 1,
+                          "next_graphs": ["g3x"] + graphs})
     for tiers in (["exact_semantic"], ["cluster_semantic"], ["exact_semantic", "cluster_semantic", "archive"]):
         for w in ((2, 3) if thorough else (2,)):
             for warm in (False, True):
@@ -373,12 +381,14 @@ def _thr_call(unit):
         cfg_par = W.make_cfg(W.deep_merge({"t1": {"cache": {"enabled": True, "max_entries": unit["cap"], "ttl_s": 300}}},
                                           {"perf": {"parallel": {"enabled": True, "t1": True, "max_workers": n}}}))
 
+        cfg_seq = W.make_cfg({"t1": {"cache": {"enabled": True, "max_entries": unit["cap"], "ttl_s": 300}}})
+
         def call():
             W.reset_globals()
             st = _thr_world()
             st["active_graphs"] = list(unit["graphs"])
             if unit["warm"]:
-                M["t1"].t1_propagate(W.make_ctx(cfg_par, "A", 1), st, unit["text"])
+                M["t1"].t1_propagate(W.make_ctx(cfg_seq, "A", 1), st, unit["text"])  # sequential: a deterministic warm-up
             return ("run", st)
 
         def body(st):
@@ -386,11 +396,14 @@ def _thr_call(unit):
             return {"deltas": r.graph_deltas, "metrics": dict(r.metrics)}
 
         def after(st):
-            r = M["t1"].t1_propagate(W.make_ctx(cfg_par, "A", 3), st, unit["text"])
+            if unit.get("next_graphs"):
+                st["active_graphs"] = list(unit["next_graphs"])
+            r = M["t1"].t1_propagate(W.make_ctx(cfg_seq, "A", 3), st, unit["text"])  # sequential: what the schedule left behind
             return {"deltas": r.graph_deltas, "metrics": dict(r.metrics)}
         return call, body, after
     cfg = W.make_cfg({"t2": {"tiers": list(unit["tiers"]), "k_retrieval": 4, "clusters_top_m": 2, "sim_threshold": -1.0},
                       "perf": {"parallel": {"enabled": True, "t2": True, "max_workers": unit["w"]}}})
+    cfg_seq2 = W.make_cfg({"t2": {"tiers": list(unit["tiers"]), "k_retrieval": 4, "clusters_top_m": 2, "sim_threshold": -1.0}})
     t1r = _types.SimpleNamespace(graph_deltas=[], metrics={})
 
     def view(r):
@@ -401,14 +414,14 @@ def _thr_call(unit):
         W.reset_globals()
         st = W.make_world("W2")
         if unit["warm"]:
-            M["t2"].t2_semantic(W.make_ctx(cfg, "A", 1), st, "pear", t1r)
+            M["t2"].t2_semantic(W.make_ctx(cfg_seq2, "A", 1), st, "pear", t1r)
         return ("run", st)
 
     def body(st):
         return view(M["t2"].t2_semantic(W.make_ctx(cfg, "A", 2), st, unit["text"], t1r))
 
     def after(st):
-        return view(M["t2"].t2_semantic(W.make_ctx(cfg, "A", 3), st, unit["text"], t1r))
+        return view(M["t2"].t2_semantic(W.make_ctx(cfg_seq2, "A", 3), st, unit["text"], t1r))
     return call, body, after
 
 
@@ -426,8 +439,8 @@ def _thr_explorer(unit, bound, max_exec=None):
 
 
 def _thr_one(unit, pe, prefix, strict=True):
-    """one schedule: set-up on the calling thread (free pools), the observed call under the controlled pool, then
-    a follow-up call (free pool again)"""
+    """one schedule: set-up on the calling thread (sequential configuration), the observed call under the controlled
+    pool, then a follow-up call (sequential configuration again: what the schedule left in the process-global caches)"""
     call, body, after = _thr_call(unit)
     _, st = call()
     ex, obs = pe.run_one(lambda: body(st), prefix, strict=strict)
@@ -448,53 +461,87 @@ def _thr_diff(ref, got):
     return out
 
 
+def _thr_tag(unit):
+    """input class of a unit for the signature: a result cache smaller than the number of concurrently processed
+    graphs is its own class (which entries survive then depends on the order of the workers' writes)"""
+    if unit["stage"] == "t1" and unit["cap"] < len(set(unit["graphs"]) | set(unit.get("next_graphs") or ())):
+        return "t1[lru-capacity<graphs]"
+    return unit["stage"]
+
+
+THR_SUBTREE_CAP = 60000
+
+
+def _thr_record(unit, st, ref, ex, obs):
+    st.add("transitions")
+    st.add("validated")
+    st.add("thread_schedules")
+    if ex.preemptions() > 0:
+        st.add("nontrivial")
+    if ex.deadlock or obs["call"] is None:
+        st.violation("threads:%s:deadlock" % unit["stage"], "unit %s deadlocks under schedule %r" % (json.dumps(unit), ex.choices()),
+                     {"dimension": "threads", "unit": unit, "choices": ex.choices()})
+        return
+    st.distinct("outcomes", ("threads", json.dumps(unit, sort_keys=True), json.dumps(obs, sort_keys=True, default=repr)))
+    if obs != ref:
+        for fld, a, b in _thr_diff(ref, obs):
+            st.violation("threads:%s:%s" % (_thr_tag(unit), fld),
+                         "unit %s: %s is %r under the default schedule and %r under schedule %r (%d preemption(s))" % (
+                             json.dumps(unit), fld, a, b, ex.choices(), ex.preemptions()),
+                         {"dimension": "threads", "unit": unit, "choices": ex.choices(), "field": fld})
+
+
+def _threads_roots(units, st):
+    """default schedule of every unit (run twice: must be reproducible) -> work items (unit, child prefix): the subtrees
+    below the first-level alternatives are disjoint, so they are explored by separate worker processes"""
+    from mc import sched
+    from mc.runner import HarnessError
+    import logging
+    logging.disable(logging.CRITICAL)
+    items = []
+    for unit in units:
+        pe = _thr_explorer(unit, unit["bound"])
+        ex, obs = _thr_one(unit, pe, [])
+        if ex is None:
+            raise HarnessError("threads leg: unit %r did not fan out" % (unit,))
+        ex2, obs2 = _thr_one(unit, pe, [])
+        if ex2 is None or ex2.trace != ex.trace or obs2 != obs:
+            raise HarnessError("threads leg: the default schedule of %r is not reproducible" % (unit,))
+        if obs["call"] is None:
+            raise HarnessError("threads leg: unit %r deadlocks under the default schedule" % (unit,))
+        _thr_record(unit, st, obs, ex, obs)
+        st.distinct("states", ("threads", json.dumps(unit, sort_keys=True)))
+        for child in sched.children(ex.trace, 0, unit["bound"]):
+            items.append((unit, child))
+    return items
+
+
 def _threads_worker(chunk, st):
     from mc import sched
     from mc.runner import HarnessError
     import logging
     logging.disable(logging.CRITICAL)
-    for unit in chunk:
-        cap_exec = 6000
-        pe = _thr_explorer(unit, unit["bound"], max_exec=cap_exec)
-        # the exploration loop of PoolExplorer.explore, with the set-up / follow-up calls outside the controlled pool
-        stack = [[]]
+    refs = {}
+    for unit, root in chunk:
+        pe = _thr_explorer(unit, unit["bound"])
+        ukey = json.dumps(unit, sort_keys=True)
+        if ukey not in refs:
+            _, refs[ukey] = _thr_one(unit, pe, [])
+        ref = refs[ukey]
+        stack = [root]
         n = 0
-        ref = None
-        seen = set()
         while stack:
-            if n >= cap_exec:
-                st.add("threads_capped_units")
+            if n >= THR_SUBTREE_CAP:
+                st.add("threads_capped_subtrees")
                 break
             prefix = stack.pop()
             ex, obs = _thr_one(unit, pe, prefix)
             if ex is None:
-                raise HarnessError("threads leg: unit %r did not fan out" % (unit,))
-            if n == 0:
-                ex2, obs2 = _thr_one(unit, pe, prefix)
-                if ex2 is None or ex2.trace != ex.trace or obs2 != obs:
-                    raise HarnessError("threads leg: the default schedule of %r is not reproducible" % (unit,))
-                ref = obs
+                raise HarnessError("threads leg: unit %r did not fan out under a replayed prefix" % (unit,))
             n += 1
-            st.add("transitions")
-            st.add("validated")
-            st.add("thread_schedules")
-            if ex.preemptions() > 0:
-                st.add("nontrivial")
-            if ex.deadlock:
-                st.violation("threads:%s:deadlock" % unit["stage"], "unit %r deadlocks under schedule %r" % (unit, ex.choices()),
-                             {"dimension": "threads", "unit": unit, "choices": ex.choices()})
-            key = json.dumps(obs, sort_keys=True, default=repr)
-            seen.add(key)
-            if obs != ref:
-                for fld, a, b in _thr_diff(ref, obs):
-                    st.violation("threads:%s:%s" % (unit["stage"], fld),
-                                 "unit %s: %s is %r under the default schedule and %r under schedule %r (%d preemption(s))" % (
-                                     json.dumps(unit), fld, a, b, ex.choices(), ex.preemptions()),
-                                 {"dimension": "threads", "unit": unit, "choices": ex.choices(), "field": fld})
+            _thr_record(unit, st, ref, ex, obs)
             stack.extend(sched.children(ex.trace, len(prefix), unit["bound"]))
-        st.distinct("states", ("threads", json.dumps(unit, sort_keys=True)))
-        st.distinct("outcomes", ("threads", unit["stage"], len(seen) == 1))
-        st.notes["threads_max_schedules_per_unit"] = max(st.notes.get("threads_max_schedules_per_unit", 0), n)
+        st.notes["threads_max_schedules_per_subtree"] = max(st.notes.get("threads_max_schedules_per_subtree", 0), n)
 
 
 # ------------------------------------------------------------------ parent
@@ -615,7 +662,11 @@ def run(run):
     run.add("validated", nvalid + (len(seeds) * len(scs) * (len(clocks) * len(dates))))
     TU = threads_units(thorough)
     run.notes["thread_schedule_units"] = len(TU)
-    run.pmap(_threads_worker, TU, chunks=len(TU))
+    items = _threads_roots(TU, run)
+    run.notes["thread_schedule_subtrees"] = len(items)
+    run.pmap(_threads_worker, items, procs=16)
+    if run.n.get("threads_capped_subtrees"):
+        run.cap("thread-schedule leg: %d subtree(s) stopped at %d schedules" % (run.n["threads_capped_subtrees"], THR_SUBTREE_CAP))
     run.notes["hash_seeds"] = seeds
     run.notes["clock_profiles"] = clocks
     run.notes["wall_dates"] = dates
@@ -645,7 +696,7 @@ def replay(case):
             pe = _thr_explorer(unit, unit["bound"])
             _, ref = _thr_one(unit, pe, [])
             _, got = _thr_one(unit, pe, [(int(c), None) for c in case.get("choices", [])], strict=False)
-            return [("threads:%s:%s" % (unit["stage"], fld), "%r vs %r" % (a, b)) for fld, a, b in _thr_diff(ref, got)]
+            return [("threads:%s:%s" % (_thr_tag(unit), fld), "%r vs %r" % (a, b)) for fld, a, b in _thr_diff(ref, got)]
         sc = case["scenario"]
         ref = run_scenario(sc, cfgs, d)
         dim = case["dimension"]
